@@ -33,7 +33,7 @@ def parsed_len_event(args):
 def run(ctx):
     quick = ctx.tier == "quick"
     ctx.rule = ("len/bytes/dump/dump(SIZE_DELIMITED)/SerializeToString on (i) constructed Wide-family messages: every field x boundary value x "
-                "presence mode (incl. empty-but-present optional / oneof / nested members), pairs, random; (ii) messages obtained by decoding "
+                "presence mode (incl. empty-but-present optional / oneof / nested members), pairs, random, and length-delimited payloads (strings, bytes, nested, packed, map entries, wrappers, 1/2/3-byte keys) swept across the 2**7k-1 length-prefix boundaries; (ii) messages obtained by decoding "
                 "the LegalEnc encodings (unknown fields, shadowed members, padded varints); non-trivial = non-empty encoding")
     ctx.assumptions = ["the size theorem SpecSize = Len(SpecEncode) is model-checked on the spec (MC_Codec.SizeAgrees); the implementation's "
                        "len() is compared with the length of its own bytes(), as the statement says"]
@@ -45,6 +45,8 @@ def run(ctx):
     for ty in ("TMix", "TOne", "TOpt", "TWkt"):
         cs += msgev.pair_cases(schema, ty, ctx.rnd, 60 if quick else 600)
     cs += msgev.random_cases(schema, ctx.rnd, 4000 if quick else 80000)
+    # payload / container lengths sweeping across the 1->2 and 2->3 byte length-prefix boundaries (and 3->4 in thorough)
+    cs += msgev.size_boundary_cases(schema, (127, 16383) if quick else (127, 16383, 2097151), (-8, 3) if quick else (-12, 4))
     events = ctx.pmap(msgev.rt_event, cs)
     for e, c in zip(events, cs):
         e["op"] = "len"
